@@ -1024,16 +1024,121 @@ def judge_c18(ctx, ex):
         yield ("%s: number of output lines differs (%d vs %d)" % (what, len(got["text"].split("\n")), len(want["text"].split("\n"))), True, None)
 
 
+# ------------------------------------------------------------------------- C17 / C16: options acting outside the stage (end-to-end, concrete)
+
+def _lcp(strings):
+    import os
+    return os.path.commonprefix(list(strings))
+
+
+def _ref_stem(iris):
+    s = _lcp(iris)
+    idx = max(s.rfind(":"), s.rfind("/"), s.rfind("#"))
+    if idx == -1:
+        return None
+    cand = s[:idx + 1]
+    if len(cand) < 3 or cand in ("http://", "https://", "http:/", "https:/", "http:", "https:"):
+        return None
+    return cand
+
+
+def concrete_c17(c):
+    """run A: base; run B: the same with detect_minimal_iri / examples_mode.  Constraints identical; stems and examples come from the data."""
+    import re
+    problems = []
+    a, b = c["schemas"]
+    for what, bad, cls in _views_equal(statements_view(a), statements_view(b), "detect_minimal_iri / examples_mode"):
+        problems.append(what)
+    extra = c["reals"][1]["run"].get("real_extra", {})
+    cref = _cref(c, 1)
+    inst_of = {}
+    for node, classes in cref.instances.items():
+        for cl in classes:
+            inst_of.setdefault(R.shape_name(cl)[2:-1], []).append(node)
+    values = {}
+    for s_, p_, o_ in c["triples"]:
+        values.setdefault((s_[1], p_, False), []).append(o_)
+        if o_[0] != "lit":
+            values.setdefault((o_[1], p_, True), []).append(s_)
+    pmap = b.prefix_map()
+    for sh in b.shapes:
+        nodes = inst_of.get(sh.label, [])
+        if extra.get("detect_minimal_iri"):
+            want = _ref_stem([n for n in nodes]) if nodes and not any(n.startswith("_:") for n in nodes) else (_ref_stem(nodes) if nodes else None)
+            if sh.stem != want:
+                problems.append("IRI stem of %s is %r, the instances %r give %r" % (sh.label, sh.stem, nodes[:4], want))
+        elif sh.stem is not None:
+            problems.append("stem printed although detect_minimal_iri is off")
+        mode = extra.get("examples_mode")
+        if mode in ("all", "shape"):
+            if sh.example is None:
+                problems.append("no shape example for %s" % sh.label)
+            else:
+                ex_iri = _example_value(sh.example, pmap)
+                if ex_iri not in nodes:
+                    problems.append("example %r of %s is not one of its instances %r" % (sh.example, sh.label, nodes[:4]))
+        if mode in ("all", "cons"):
+            for stm in sh.statements:
+                anns = [x["raw"] for x in stm.comments if x.get("annotation")]
+                if stm.pred == RDF_TYPE:
+                    continue
+                if len(anns) != 1:
+                    problems.append("%d example annotations on %s of %s" % (len(anns), stm.pred, sh.label))
+                    continue
+                m = re.match(r"^// rdfs:comment (.*) ;$", anns[0])
+                if not m:
+                    problems.append("unreadable example annotation %r" % anns[0])
+                    continue
+                val = _example_value(m.group(1), pmap)
+                actual = [v for n in nodes for v in values.get((n, stm.pred, stm.inverse), [])]
+                if not any((v[0] == "lit" and val == v[2]) or (v[0] != "lit" and val == v[1]) for v in actual):
+                    problems.append("example %r of %s%s in %s is not a value of that property on an instance" % (m.group(1), "^" if stm.inverse else "", stm.pred, sh.label))
+    return problems
+
+
+def _example_value(text, pmap):
+    text = text.strip()
+    if text.startswith("<") and text.endswith(">"):
+        return text[1:-1]
+    if text.startswith('"') and text.endswith('"'):
+        return text[1:-1]
+    if ":" in text:
+        p, l = text.split(":", 1)
+        if p in pmap:
+            return pmap[p] + l
+    return text
+
+
+def concrete_same_output(c):
+    """run A vs run B must state the same shapes, constraints and figures (an option that must change nothing on this input)."""
+    return _run_symbolic_judge_concretely(_judge_identical, c)
+
+
+def _judge_identical(ctx, ex):
+    a, b = ctx["runs"]
+    yield from _views_equal(statements_view(a["schema"]), statements_view(b["schema"]), "the option")
+    fa, fb = facts(a["schema"]), facts(b["schema"])
+    if set(fa) != set(fb):
+        yield ("the option changes the reported facts: %r" % (sorted(set(fa) ^ set(fb), key=repr)[:3],), True, None)
+    for k in set(fa) & set(fb):
+        yield ("the option changes the count of %r" % (k[:5],), fig_differs(ex, fa[k][1], fb[k][1]), None)
+        yield ("the option changes the ratio of %r" % (k[:5],), fig_differs(ex, fa[k][0], fb[k][0]), None)
+    for sa, sb in zip(a["schema"].shapes, b["schema"].shapes):
+        yield ("the option changes the instance count of %s" % sa.label, fig_differs(ex, sa.n_instances, sb.n_instances), None)
+
+
 # ------------------------------------------------------------------------- registries
 
 JUDGES = {
     "C01": [judge_c01], "C02": [judge_c02], "C04": [], "C05": [judge_c05], "C12": [judge_c12], "C12z": [judge_c12_zero], "C12o": [judge_c12_one],
-    "C14": [judge_c14], "C11": [judge_c11], "C13": [judge_c13], "C03": [judge_c03], "C18": [judge_c18], "C09": [judge_c09],
+    "C14": [judge_c14], "C11": [judge_c11], "C13": [judge_c13], "C03": [judge_c03], "C18": [judge_c18], "C09": [judge_c09], "C17e": [], "SAME": [],
 }
 
 
 def _cref(c, i=0):
-    return ConcreteRef(c["triples"] if c["reals"][i]["run"]["graph"] != "R" else __import__("harness.stage", fromlist=["x"]).reverse_triples(c["triples"]),
+    _T = __import__("harness.stage", fromlist=["x"])
+    _g = c["reals"][i]["run"]["graph"]
+    return ConcreteRef(_T.reverse_triples(c["triples"]) if _g == "R" else (_T.drop_ignored(c["triples"]) if _g == "D" else c["triples"]),
                        c["reals"][i]["run"]["flags"]["inverse_paths"], c.get("instances"), [R.EX + x for x in (c["cfg"].get("targets") or [])])
 
 
@@ -1087,4 +1192,6 @@ CONCRETE = {
     "C03": _conc_c03,
     "C18": lambda c: _run_symbolic_judge_concretely(judge_c18, c),
     "C09": lambda c: _run_symbolic_judge_concretely(judge_c09, c),
+    "C17e": concrete_c17,
+    "SAME": concrete_same_output,
 }
